@@ -57,7 +57,7 @@ CLAIMED = {
    text="Structural bounded check: every operation through Map<G>/Map<const G> over a caller buffer with guard scalars (view at scalar offsets 3 and 1) is executed "
         "symbolically; the interpreter's exact per-path write set must lie inside the viewed range (sub-part views: their sub-range), const views are never written, "
         "Map results are the same term DAG as value results (bit-identical), copies are verbatim, cast<float> is one fptrunc per coefficient in order.",
-   note=TB + "; groups SO2,SO3,SE2,SE3,C1,Galilei,SE_K_3<2> and Bundle<SO3,V3,SE2> parts; write sets exact because pointers are concrete; no concurrency. Assignment between two views of one buffer shifted by one scalar and by two scalars is decided in both directions; the destination-after-source direction failed on the pinned tree (Eigen aliasing in LieGroupBase::operator=), was first a known finding and is repaired by /repo 3a492bf (fixed entry; no open known finding).",
+   note=TB + "; groups SO2,SO3,SE2,SE3,C1,Galilei,SE_K_3<2> and Bundle<SO3,V3,SE2> parts; write sets exact because pointers are concrete; no concurrency. Assignment between two views of one buffer shifted by one scalar and by two scalars is decided in both directions, and for group-typed sub-part views assigned from a view of the same buffer one scalar further on; the destination-after-source direction failed on the pinned tree (Eigen aliasing in LieGroupBase::operator=), was first a known finding and is repaired by /repo 3a492bf (fixed entry; no open known finding).",
    ref="DESIGN 4/C16", technique="symbolic execution of LLVM IR with exact write-set tracking (footprints) + SMT for residual equalities"),
  "C19": dict(
    text="Bounded symbolic check: ad_sparse, dr_exp(inv)_sparse, d2r_exp(inv)_sparse are executed symbolically (Eigen::SparseMatrix internals run concretely, values symbolic) "
